@@ -256,6 +256,48 @@ def run(ctx, res):
     sites = sum(1 for p, f in P.funcs.items() for bi, t in f.calls() if M.callee_name(t) in (U, UA) and p not in (U, UA))
     res.floor("CALL-PRESENCE", "call sites of unify/unify_all outside themselves", sites, 7)
     res.extra["functions_analysed"] = 3
+    # ---- JOIN-INPUT-COVER (MIR): the match rule joins the types of *all* arms: in check_match every iteration of
+    # the loop over the cases records the arm's type in `case_tys` (no `continue` before the push), and the vector
+    # that reaches unify_all is that one.
+    from .. import loops as LP
+    cm = None
+    for pth, g in P.funcs.items():
+        if pth.endswith("::check_match") and "type_checker" in pth and "{closure" not in pth:
+            cm = g
+    if cm is None:
+        raise M.MissingAnchor("type_checker check_match")
+    pushes = []
+    for bi, t in cm.calls():
+        n = M.callee_name(t) or ""
+        if n.endswith("::push") and t["args"]:
+            r = cm.root_of(t["args"][0], through_named=False)
+            if r[0] == "place" and cm.local_name(r[1]["l"]) == "case_tys":
+                pushes.append(bi)
+    res.floor("JOIN-INPUT-COVER", "case_tys.push sites in check_match", len(pushes), 1)
+    best = None
+    for h, body in LP.loops_of(cm).items():
+        if pushes and all(pb in body for pb in pushes):
+            if best is None or len(body) < len(best[1]):
+                best = (h, body)
+    if best is None:
+        res.bad("JOIN-INPUT-COVER", "check_match # loop", "the pushes to case_tys are not inside one loop over the match cases", cm.loc())
+    else:
+        h, body = best
+        backs = [b for b in body if h in cm.succ[b]]
+        r = D.reach_from(cm, [h], avoid_blocks=pushes)
+        # entering the header again without a push: walk from the header's in-body successors
+        starts = [x for x in cm.succ[h] if x in body]
+        r = set()
+        for st in starts:
+            r |= D.reach_from(cm, [st], avoid_blocks=pushes + [h])
+        skipping = [b for b in backs if b in r and b != h]
+        if skipping:
+            res.bad("JOIN-INPUT-COVER", "check_match # arm-skipped",
+                    "an iteration over the match cases can continue without recording the arm's type in case_tys: "
+                    "that arm is left out of the join, so the inferred type of the match does not cover it",
+                    cm.loc(cm.blocks[skipping[0]]["term"].get("span")))
+        else:
+            res.ok("JOIN-INPUT-COVER", "check_match: every case iteration pushes to case_tys before continuing (%d push site(s))" % len(pushes))
     res.explanation = (
         "Schema conformance of the join: each way `unify` can produce Some(X) is matched against the rows that C14's relation "
         "makes upper bounds (top; the other side of a bottom; either of two equal types; same-name user type with componentwise "
